@@ -69,6 +69,12 @@ pub struct UdpCfg {
     pub fates: Vec<UFate>,
     /// a listen-server host: a local client created with RenetServer::new_local_client next to the transport
     pub local_host: bool,
+    /// client 0's token lists an address where nobody answers before its relay's address
+    pub dead_first_addr: bool,
+    /// (tick, ms): that server update is given this duration (a long frame); datagrams kept arriving meanwhile
+    pub server_hitch: Option<(u32, u64)>,
+    /// (tick, n): a stranger's socket sends n empty datagrams to the server ahead of that tick's client datagrams
+    pub empty_flood: Option<(u32, usize)>,
 }
 
 struct Relay {
@@ -129,12 +135,18 @@ struct World<'c> {
     faults: u32,
     local: Option<RenetClient>,
     local_got: u32,
+    /// bound, never read: the silent address of `dead_first_addr`
+    dead: UdpSocket,
+    stranger: UdpSocket,
+    server_addr: SocketAddr,
 }
 
 impl<'c> World<'c> {
     fn new(cfg: &'c UdpCfg) -> Result<Self, Violation> {
         let server_sock = sock()?;
         let server_addr = server_sock.local_addr().unwrap();
+        let dead = sock()?;
+        let stranger = sock()?;
         let mut relays = vec![];
         let mut client_socks = vec![];
         for _ in 0..cfg.clients {
@@ -167,7 +179,8 @@ impl<'c> World<'c> {
             let id = if cfg.end == End::DuplicateId { 500 } else { 500 + i as u64 };
             let mut ud = [0u8; 256];
             ud[0] = i as u8;
-            let token = ConnectToken::generate(Duration::ZERO, PROTOCOL, 60, id, TIMEOUT_S, vec![relays[i].addr], Some(&ud), &KEY)
+            let addrs = if cfg.dead_first_addr && i == 0 { vec![dead.local_addr().unwrap(), relays[i].addr] } else { vec![relays[i].addr] };
+            let token = ConnectToken::generate(Duration::ZERO, PROTOCOL, 60, id, TIMEOUT_S, addrs, Some(&ud), &KEY)
                 .map_err(|e| Violation::new("machinery/token", e.to_string()))?;
             let tr = NetcodeClientTransport::new(Duration::ZERO, ClientAuthentication::Secure { connect_token: token }, s)
                 .map_err(|e| Violation::new("machinery/transport", e.to_string()))?;
@@ -196,6 +209,9 @@ impl<'c> World<'c> {
             faults: 0,
             local,
             local_got: 0,
+            dead,
+            stranger,
+            server_addr,
         })
     }
 
@@ -385,7 +401,10 @@ impl<'c> World<'c> {
 
     fn server_phase(&mut self, ctx: &mut Ctx) -> Result<(), Violation> {
         let tick = self.tick;
-        let dt = Duration::from_millis(DT_MS);
+        let dt = match self.cfg.server_hitch {
+            Some((t, ms)) if t == tick => Duration::from_millis(ms),
+            _ => Duration::from_millis(DT_MS),
+        };
         let (rs, st) = (&mut self.rs, &mut self.st);
         guard("server update", || {
             rs.update(dt);
@@ -662,6 +681,14 @@ impl Scenario for UdpScenario {
             for tick in 0..self.cfg.horizon + self.cfg.tail {
                 w.tick = tick;
                 w.client_phase(ctx)?;
+                if let Some((t, n)) = self.cfg.empty_flood {
+                    if t == tick {
+                        for _ in 0..n {
+                            w.stranger.send_to(&[], w.server_addr).map_err(|e| Violation::new("machinery/relay-io", e.to_string()))?;
+                        }
+                        let _ = &w.dead;
+                    }
+                }
                 w.pump(ctx, true)?;
                 w.server_phase(ctx)?;
                 w.pump(ctx, false)?;
@@ -734,6 +761,9 @@ pub fn scenarios(tier: Tier) -> Vec<UdpScenario> {
                 tail: 14,
                 fates: all.clone(),
                 local_host: end != End::ServerDisconnectAll && end != End::ServerKickThenDisconnectAll,
+                dead_first_addr: false,
+                server_hitch: None,
+                empty_flood: None,
             },
         });
     }
@@ -752,9 +782,48 @@ pub fn scenarios(tier: Tier) -> Vec<UdpScenario> {
                     tail: 14,
                     fates: all.clone(),
                     local_host: false,
+                    dead_first_addr: false,
+                    server_hitch: None,
+                    empty_flood: None,
                 },
             });
         }
+    }
+    // scale classes: things that take a whole time-out period or many datagrams to show
+    let base = |name: &str| UdpCfg {
+        name: name.to_string(),
+        clients: 2,
+        end: End::None,
+        end_tick: 99,
+        send_tick: 4,
+        horizon: 8,
+        fault_from: 0,
+        tail: 14,
+        fates: all.clone(),
+        local_host: false,
+        dead_first_addr: false,
+        server_hitch: None,
+        empty_flood: None,
+    };
+    {
+        // time-out 2 s = 8 ticks of silence from the first address, then the relay's address answers
+        let mut c = base("2 clients, client 0's token lists a silent address first (fail-over after 2 s), messages at tick 15");
+        c.dead_first_addr = true;
+        c.send_tick = 15;
+        c.fault_from = 10;
+        c.horizon = 17;
+        v.push(UdpScenario { cfg: c });
+    }
+    {
+        let mut c = base("2 clients, messages at tick 4, one server update of 2250 ms (longer than the time-out) at tick 12 while client datagrams kept arriving");
+        c.server_hitch = Some((12, 2250));
+        v.push(UdpScenario { cfg: c });
+    }
+    {
+        let mut c = base("2 clients, messages at tick 4, a stranger sends 12 empty datagrams to the server at tick 6");
+        c.empty_flood = Some((6, 12));
+        c.tail = 20;
+        v.push(UdpScenario { cfg: c });
     }
     v
 }
